@@ -336,4 +336,57 @@ Proof.
     + rewrite <- Eb. exists pre, (concat bs ++ post). split; [|reflexivity]. rewrite FILE, <- !app_assoc. reflexivity.
 Qed.
 
+(* ---- the row groups of a file --------------------------------------------------------------------------- *)
+Fixpoint rgs_out (ls : list lleaf) (rgs : list (list lchunk)) (pos : N) : list (rgroup * list chunk_res) :=
+  match rgs with
+  | [] => []
+  | cs :: r =>
+    (hd {| rg_cols := []; rg_tbs := 0; rg_nrows := 0 |} (snd (fst (enc_rgs compress ls (cs :: r) pos))), cols_out ls cs pos)
+    :: rgs_out ls r (snd (enc_cols compress ls cs pos))
+  end.
+
+Lemma enc_rgs_pos ls : forall rgs pos,
+  snd (enc_rgs compress ls rgs pos) = pos + lenN (concat (fst (fst (enc_rgs compress ls rgs pos)))).
+Proof.
+  induction rgs as [|cs r IH]; intros pos; [cbn; lia|]. cbn [enc_rgs].
+  pose proof (enc_cols_pos ls cs pos) as P1.
+  destruct (enc_cols compress ls cs pos) as [[bs ccs] pos1] eqn:EC.
+  specialize (IH pos1). destruct (enc_rgs compress ls r pos1) as [[bs2 rs] pos2] eqn:ER. cbn [fst snd] in *.
+  rewrite app_tr_ok, concat_app, lenN_app. lia.
+Qed.
+
+Definition rg_ok (ls : list lleaf) (cs : list lchunk) : Prop := length ls = length cs /\ Forall2 chunk_ok ls cs.
+
+Theorem scan_rgs_roundtrip strict fstart ls : forall rgs pos file pre post,
+  Forall (rg_ok ls) rgs ->
+  file = pre ++ concat (fst (fst (enc_rgs compress ls rgs pos))) ++ post -> lenN pre = pos -> 4 <= pos ->
+  snd (enc_rgs compress ls rgs pos) <= fstart ->
+  map_rs (fun rg => let! cs := scan_cols decompress strict file fstart (map leaf_of_l ls) (rg_cols rg) in ROk (rg, cs))
+         (snd (fst (enc_rgs compress ls rgs pos)))
+  = ROk (rgs_out ls rgs pos).
+Proof.
+  induction rgs as [|cs r IH]; intros pos file pre post OK FILE PRE P4 PF; [reflexivity|].
+  assert (OK1 : rg_ok ls cs) by (inversion OK; assumption).
+  assert (OKr : Forall (rg_ok ls) r) by (inversion OK; assumption).
+  destruct OK1 as [LEN F2].
+  cbn [rgs_out]. cbn [enc_rgs] in *.
+  pose proof (enc_cols_pos ls cs pos) as P1.
+  pose proof (scan_cols_roundtrip strict fstart ls cs pos file pre) as SC.
+  destruct (enc_cols compress ls cs pos) as [[bs ccs] pos1] eqn:EC.
+  pose proof (enc_rgs_pos ls r pos1) as P2.
+  pose proof (IH pos1 file (pre ++ concat bs) post OKr) as IH'.
+  destruct (enc_rgs compress ls r pos1) as [[bs2 rs] pos2] eqn:ER. cbn [fst snd] in *.
+  rewrite app_tr_ok, concat_app in FILE.
+  cbn [map_rs rg_cols hd].
+  rewrite (SC (concat bs2 ++ post)); try assumption.
+  - cbn [rbind]. rewrite IH'.
+    + reflexivity.
+    + rewrite FILE, <- !app_assoc. reflexivity.
+    + rewrite lenN_app. lia.
+    + lia.
+    + exact PF.
+  - rewrite FILE, <- !app_assoc. reflexivity.
+  - lia.
+Qed.
+
 End WithCodecs4.
